@@ -118,6 +118,7 @@ int main(int argc, char** argv)
                         }
                         Fnv h; h.pod(code); h.pod(nev); h.pod(k);
                         L.distinct.insert(h.h);
+                        L.sample("{\"abstract_state\": " + jstr(key) + ", \"nev_adjusted\": " + num(k) + "}", 4);
                         if (ncv <= NCV_RST && k >= 1 && k <= ncv - 1 && nsmall == 0)
                         {
                             // execute the real restart on a freshly built factorization
